@@ -259,6 +259,8 @@ def _api_case(draw):
                 st.sampled_from(['bind_str', 'bind_tuple', 'parse_flat', 'query',
                                  'get_configurable', 'ref'])),
       st.tuples(st.sampled_from(['const_macro', 'const_query']), _idx, _idx),
+      st.tuples(st.sampled_from(['const_macro', 'const_query']), st.just(0), _idx),
+      st.tuples(st.just('method'), _idx, f_scope, f_param, st.integers(0, 99), _idx),
   ).map(list)
   late = draw(st.lists(st.tuples(st.sampled_from(MODS), st.sampled_from(FNS)), max_size=3,
                        unique=True))
@@ -333,7 +335,8 @@ def check_api(case):
   cons = gin.configurable('zzcons.consumer')(_consumer)
   consts = {}
   for i, c in enumerate(case['consts']):
-    obj = ('const', c, i)
+    # falsy values too: a constant that is None / 0 / '' is still a constant
+    obj = [None, ('const', c, i), 0, ('const', c, i), ''][i % 5]
     try:
       gin.constant(c, obj)
       require(not m_match(sorted(consts), c), 'duplicate-constant-accepted',
@@ -345,6 +348,24 @@ def check_api(case):
               lambda: f'{c} rejected while {sorted(consts)} defined')
   model = {}    # (scope, full name) -> {param: value}
   used = {}     # (scope, full, param) -> set of (api, spelling)
+  # a registered method of a registered class: addressed by 'Class.method' spellings or by the
+  # function object itself -- one key
+  import sys, types  # pylint: disable=g-import-not-at-top,multiple-imports
+  hostmod = types.ModuleType('c08host')
+  hostmod.gin = gin
+  sys.modules['c08host'] = hostmod
+  exec('class Trainer:\n  @gin.register\n  def step(self, p="dp", q="dq"):\n'  # pylint: disable=exec-used
+       '    return {"who": "step", "p": p, "q": q}\n', hostmod.__dict__)
+  gin.register(hostmod.Trainer)
+  step_obj = hostmod.Trainer.__dict__['step']
+  mmodel = {}   # scope -> {param: value}
+
+  def moverlay(scope):
+    parts = scope.split('/') if scope else []
+    res = {}
+    for i in range(len(parts) + 1):
+      res.update(mmodel.get('/'.join(parts[:i]), {}))
+    return res
 
   def overlay(scope, full):
     parts = scope.split('/') if scope else []
@@ -491,6 +512,26 @@ def check_api(case):
         require(got['who'] == target and got[param] == expect_value(scope, target, param),
                 'reference-uncalled', lambda: f'@{scoped(scope, sp)} -> {got}')
       labels.add('read-ok')
+    elif kind == 'method':
+      _, j, scope, param, val, how = op
+      sp = ['Trainer.step', 'c08host.Trainer.step'][j % 2]
+      if how % 3 == 0:
+        gin.bind_parameter((scope, sp, param), val)
+      elif how % 3 == 1:
+        gin.parse_config(f'{scoped(scope, sp)}.{param} = {val}')
+      else:
+        gin.parse_config(f'{scoped(scope, sp)}:\n  {param} = {val}\n')
+      mmodel.setdefault(scope, {})[param] = val
+      want = moverlay(scope)
+      with gin.config_scope(scope):
+        by_obj = gin.get_bindings(step_obj)
+        by_name = gin.get_bindings('Trainer.step')
+        called = gin.get_configurable('c08host.Trainer')().step()
+      require(by_obj == want and by_name == want, 'method-by-object',
+              lambda: f'scope {scope!r}: get_bindings(<function step>) -> {by_obj}, '
+                      f"get_bindings('Trainer.step') -> {by_name}, model {want}")
+      require({k: called[k] for k in want} == want, 'method-call', lambda: f'{called} vs {want}')
+      labels.add('registered-method-by-object')
     elif kind == 'unknown':
       _, sp, api = op
       if m_match(names, sp):
@@ -523,6 +564,8 @@ def check_api(case):
         require(got is consts[res[0]], 'constant-identity',
                 lambda: f'%{sp} -> {got!r}, expected {consts[res[0]]!r}')
         labels.add('const-ok')
+        if not consts[res[0]]:
+          labels.add('const-falsy-value')
       elif kind == 'const_macro':
         expect_error(fn, f'constant {sp!r} ambiguous among {res}')
         labels.add('const-ambiguous')
